@@ -164,3 +164,22 @@ impl<M: Math, P: Point<M>> Collector<M, P> for AcceptanceRateCollector {
         self.max_energy_error = 0.;
     }
 }
+
+#[cfg(nuts_rs_verif)]
+impl AcceptanceRateCollector {
+    /// Verification hook: a collector holding `count` leapfrogs with the given mean statistics.
+    pub fn verif_with(mean: f64, mean_sym: f64, count: u64, max_energy_error: f64) -> Self {
+        AcceptanceRateCollector {
+            initial_energy: 0.,
+            mean: RunningMean {
+                sum: mean * count as f64,
+                count,
+            },
+            mean_sym: RunningMean {
+                sum: mean_sym * count as f64,
+                count,
+            },
+            max_energy_error,
+        }
+    }
+}
